@@ -36,12 +36,12 @@ import (
 type Elem struct {
 	Peer int    `json:"peer"`
 	From int    `json:"from"`
-	Kind string `json:"kind"` // good, jump, inwindow, replay, badtag, badidx, old, oldsess, crossidx
+	Kind string `json:"kind"` // good, jump, inwindow, replay, badtag, badidx, old, oldsess, oldsess2, crossidx
 	Data bool   `json:"data,omitempty"`
 }
 
 type Plan struct {
-	Op      string `json:"op"` // init, resp, cookie, other, batch, tun, uapi, shifths, restart
+	Op      string `json:"op"` // init, resp, cookie, other, batch, tun, uapi, shifths, restart, setnonce
 	Peer    int    `json:"peer,omitempty"`
 	From    int    `json:"from,omitempty"`
 	Mac1    string `json:"mac1,omitempty"`    // ok, junk
@@ -301,6 +301,24 @@ func (r *run) observe(out cosim.Out, sid int, hid int, newSess *rsess) (string, 
 	return fmt.Sprintf("OB [%s] [%s]", strings.Join(gal, "; "), strings.Join(eg, "; ")), txt, et, moved
 }
 
+// slotOwner says which peer still HOLDS a session with this receiver index in one of its three keypair
+// slots (previous, current, next).  An index that is merely still present in the index table does not count:
+// a session the peer has discarded is stale, whatever the table says.
+func (r *run) slotOwner(idx uint32) (int, bool) {
+	for i, q := range r.peers {
+		st := r.w.Dev.VerifPeer(q.NoisePub())
+		for _, kp := range []struct {
+			present bool
+			idx     uint32
+		}{{st.Previous.Present, st.Previous.LocalIndex}, {st.Current.Present, st.Current.LocalIndex}, {st.Next.Present, st.Next.LocalIndex}} {
+			if kp.present && kp.idx == idx {
+				return i, true
+			}
+		}
+	}
+	return 0, false
+}
+
 func (r *run) ownerOf(idx uint32, wantHandshake bool) (int, bool) {
 	for _, e := range r.w.Dev.VerifIndexTable() {
 		if e.Index == idx && ((wantHandshake && e.IsHandshake) || (!wantHandshake && e.IsKeypair)) {
@@ -523,6 +541,12 @@ func (r *run) exec(pl Plan, recs *[]StepRec) bool {
 			if kind == "oldsess" && len(ss) < 2 {
 				kind = "good"
 			}
+			if kind == "oldsess2" && len(ss) < 3 {
+				kind = "oldsess"
+				if len(ss) < 2 {
+					kind = "good"
+				}
+			}
 			if kind == "replay" && len(cur.sent) == 0 {
 				kind = "good"
 			}
@@ -580,6 +604,9 @@ func (r *run) exec(pl Plan, recs *[]StepRec) bool {
 			case "oldsess":
 				o := ss[len(ss)-2]
 				send(o, o.ctr, true)
+			case "oldsess2":
+				o := ss[len(ss)-3]
+				send(o, o.ctr, true)
 			case "crossidx":
 				send(cur, cur.ctr+60, false)
 				data = append([]byte{}, data...)
@@ -596,7 +623,7 @@ func (r *run) exec(pl Plan, recs *[]StepRec) bool {
 			}
 			owner := "None"
 			idx := binary.LittleEndian.Uint32(data[4:8])
-			if oi, ok := r.ownerOf(idx, false); ok {
+			if oi, ok := r.slotOwner(idx); ok {
 				for _, rs := range r.sess[oi] {
 					if rs.s.RemoteIdx == idx {
 						owner = fmt.Sprintf("(Some (%d, %d))", keyNum(oi), rs.sid)
@@ -610,6 +637,14 @@ func (r *run) exec(pl Plan, recs *[]StepRec) bool {
 		out := r.w.InjectBatch(ds...)
 		obs, txt, eps, moved := r.observe(out, 0, 0, nil)
 		rec.Event = fmt.Sprintf("EB %d [%s]", t, strings.Join(els, "; "))
+		rec.Obs, rec.Outs, rec.Eps, rec.Moved, settled = obs, txt, eps, moved, out.Settled
+	case "setnonce":
+		// push the send counter of the current keypair over RekeyAfterMessages: the next data packet asks for a new handshake
+		pi := pl.Peer % len(r.peers)
+		r.w.Dev.VerifSetSendNonce(r.peers[pi].NoisePub(), (1<<60)+1)
+		out := r.w.Take()
+		obs, txt, eps, moved := r.observe(out, 0, 0, nil)
+		rec.Event = fmt.Sprintf("ESN %d", keyNum(pi))
 		rec.Obs, rec.Outs, rec.Eps, rec.Moved, settled = obs, txt, eps, moved, out.Settled
 	case "restart":
 		// Device.Down then Device.Up: every peer is stopped (sessions, handshake state and staged packets
@@ -907,15 +942,57 @@ func genRestart(r *mrand.Rand) []Plan {
 	return p
 }
 
+// crossed handshakes: the peer re-initiates and the device's answer is "lost" (its next keypair stays
+// unconfirmed), then the device's own initiation completes; afterwards transport under every earlier session
+// arrives from new addresses.  Also the other crossing: the device's initiation is outstanding when the peer's
+// initiation is consumed, then the (now useless) response arrives.
+func genCrossed(r *mrand.Rand) []Plan {
+	pi := r.Intn(2)
+	var p []Plan
+	// session 0
+	if r.Intn(2) == 0 {
+		p = append(p, handshakeAsResponder(pi, pi)...)
+		p = append(p, batchOf(Elem{Peer: pi, From: pi, Kind: "good", Data: true}))
+	} else {
+		p = append(p, handshakeAsInitiator(pi, pi)...)
+	}
+	if r.Intn(3) != 0 {
+		p = append(p, batchOf(Elem{Peer: pi, From: pi, Kind: "jump"}))
+	}
+	if r.Intn(4) != 0 {
+		// the peer re-initiates; nothing is ever sent under the session the device then offers
+		p = append(p, Plan{Op: "init", Peer: pi, From: []int{pi, 4, 6}[r.Intn(3)], Mac1: "ok", Content: "good"})
+	}
+	// the device is made to initiate although it has a current keypair, and completes
+	p = append(p, Plan{Op: "setnonce", Peer: pi}, Plan{Op: "shifths", Peer: pi, D: 6}, Plan{Op: "tun", Peer: pi})
+	if r.Intn(4) == 0 {
+		// other crossing: the peer's initiation is consumed while the device's own is outstanding
+		p = append(p, Plan{Op: "init", Peer: pi, From: r.Intn(len(addrTable)), Mac1: "ok", Content: "good"})
+	}
+	p = append(p, Plan{Op: "resp", Peer: pi, From: []int{pi, 5, 3}[r.Intn(3)], Mac1: "ok", Content: "good"})
+	n := 3 + r.Intn(4)
+	for i := 0; i < n; i++ {
+		kind := []string{"oldsess2", "oldsess2", "oldsess", "good", "replay", "oldsess2"}[r.Intn(6)]
+		p = append(p, batchOf(Elem{Peer: pi, From: r.Intn(len(addrTable)), Kind: kind, Data: r.Intn(3) == 0}))
+		if r.Intn(2) == 0 {
+			p = append(p, Plan{Op: "tun", Peer: pi})
+		}
+	}
+	p = append(p, Plan{Op: "tun", Peer: pi})
+	return p
+}
+
 func genMix(r *mrand.Rand) []Plan {
 	var p []Plan
 	n := 8 + r.Intn(12)
 	for i := 0; i < n; i++ {
 		pi := r.Intn(3)
 		from := r.Intn(len(addrTable))
-		switch r.Intn(11) {
+		switch r.Intn(12) {
 		case 10:
 			p = append(p, Plan{Op: "restart"})
+		case 11:
+			p = append(p, Plan{Op: "setnonce", Peer: pi}, Plan{Op: "shifths", Peer: pi, D: 6}, Plan{Op: "tun", Peer: pi})
 		case 0, 1:
 			p = append(p, Plan{Op: "init", Peer: []int{pi, pi, pi, 9}[r.Intn(4)], From: from, Mac1: []string{"ok", "ok", "junk"}[r.Intn(3)],
 				Content: []string{"good", "good", "replay", "corruptstatic", "corruptts", "oldts", "flood"}[r.Intn(7)]})
@@ -929,7 +1006,7 @@ func genMix(r *mrand.Rand) []Plan {
 			k := 1 + r.Intn(4)
 			for j := 0; j < k; j++ {
 				kinds := append(append([]string{}, goodElemKinds...), badElemKinds...)
-				kinds = append(kinds, "oldsess")
+				kinds = append(kinds, "oldsess", "oldsess2")
 				els = append(els, Elem{Peer: r.Intn(3), From: r.Intn(len(addrTable)), Kind: kinds[r.Intn(len(kinds))], Data: r.Intn(4) == 0})
 			}
 			p = append(p, batchOf(els...))
@@ -1227,7 +1304,7 @@ func main() {
 			f    func(*mrand.Rand) []Plan
 			w    int
 		}{{"roam-transport", genRoamTransport, 4}, {"roam-handshake", genRoamHandshake, 4}, {"initiator-role", genInitiatorRole, 3},
-			{"mixed-batch", genMixedBatch, 3}, {"two-sessions", genTwoSessions, 2}, {"restart", genRestart, 4}, {"mix", genMix, 4}}
+			{"mixed-batch", genMixedBatch, 3}, {"two-sessions", genTwoSessions, 2}, {"restart", genRestart, 4}, {"crossed", genCrossed, 4}, {"mix", genMix, 4}}
 		tot := 0
 		for _, g := range gens {
 			tot += g.w
